@@ -1589,6 +1589,30 @@ func (e *Exec) strConcat(st *State, a, b *StringVal) *StringVal {
 	if b.Len.IsConst() && b.Len.C.Sign() == 0 {
 		return a
 	}
+	if sa, ok := concreteString(a); ok {
+		if sb, ok := concreteString(b); ok {
+			return e.strConst(sa + sb)
+		}
+	}
+	if a.Len.IsConst() && b.Len.IsConst() && a.Len.C.IsInt64() && b.Len.C.IsInt64() && a.Len.C.Int64()+b.Len.C.Int64() <= 256 {
+		// concrete lengths: the contents as a literal list of element terms
+		var vals []*Term
+		for i := int64(0); i < a.Len.C.Int64(); i++ {
+			vals = append(vals, e.sel(a.C, c.Add(a.Off, e.idx(i))))
+		}
+		for i := int64(0); i < b.Len.C.Int64(); i++ {
+			vals = append(vals, e.sel(b.C, c.Add(b.Off, e.idx(i))))
+		}
+		r := &StringVal{C: &ArrLit{Vals: vals, Rest: &ArrFill{Val: c.NumConst(big.NewInt(0), e.elemSort(types.Typ[types.Uint8]))}}, Off: e.idx(0), Len: e.idx(int64(len(vals)))}
+		if a.Tag != nil && b.Tag != nil {
+			r.Tag = &StrTag{Segs: append(append([]StrSeg{}, a.Tag.Segs...), b.Tag.Segs...)}
+		} else if a.Tag != nil {
+			r.Tag = &StrTag{Segs: append(append([]StrSeg{}, a.Tag.Segs...), StrSeg{Kind: "str", S: b})}
+		} else if b.Tag != nil {
+			r.Tag = &StrTag{Segs: append([]StrSeg{{Kind: "str", S: a}}, b.Tag.Segs...)}
+		}
+		return r
+	}
 	// new contents: a at [0,la), b at [la, la+lb)
 	var base ArrC = &ArrFill{Val: c.NumConst(big.NewInt(0), e.elemSort(types.Typ[types.Uint8]))}
 	var cont ArrC
